@@ -1859,12 +1859,16 @@ fn gen_deepen(rng: &mut Rng, thorough: bool, w: &mut CaseWriter) {
                     continue;
                 };
                 let frames = fmt_frames(&data_frames(&rf.bytes));
-                if ops.len() + frames.len() > 400_000 {
+                // (the model counts in unary: an operation sequence of 10^5 one-byte writes costs
+                // 10^5 x MAX_BUF_SIZE steps, so the big class is only used where the format layer
+                // hands the BGZF writer whole records)
+                if ops.len() > 12_000 || ops.len() + frames.len() > 400_000 {
                     continue;
                 }
                 let n = rf.calls;
+                let staged_only = rf.marks.len() >= 2 && rf.marks[rf.marks.len() - 2] == 0;
                 let mut scripts: Vec<Vec<Fault>> = Vec::new();
-                if n <= 45 && round < 2 {
+                if (staged_only || n <= 45) && frames.len() < 4000 && round < 2 {
                     // everything fits the staging buffer: the sink is only touched by the finishing
                     // call; a failure at EVERY call made during try_finish / finish
                     let kind = code_kind(INJECT[(round + n) % INJECT.len()]);
@@ -1881,7 +1885,7 @@ fn gen_deepen(rng: &mut Rng, thorough: bool, w: &mut CaseWriter) {
                     }
                 }
                 scripts.push(vec![]);
-                for j in 0..3 {
+                for j in 0..(if frames.len() < 4000 { 3 } else { 1 }) {
                     let sl = rng.below(n as u64 + 3) as usize;
                     scripts.push(gen_script(rng, sl, j != 0));
                 }
@@ -1917,8 +1921,14 @@ fn gen_deepen(rng: &mut Rng, thorough: bool, w: &mut CaseWriter) {
                     v
                 }
                 _ => {
+                    // no Short events: the buffer lengths (not only the bytes) differ from one
+                    // fault-free run to the next, and with them the number of calls a short-writing
+                    // sink sees; Full / Interrupted / Fail scripts are insensitive to lengths
                     let sl = rng.below(n as u64 + 3) as usize;
                     gen_script(rng, sl, j % 2 == 0)
+                        .into_iter()
+                        .map(|f| if let Fault::Short(_) = f { Fault::Full } else { f })
+                        .collect()
                 }
             };
             w.push("cram", vec![seed.to_string(), fmt_script(&sc), ops.clone()]);
@@ -1961,7 +1971,8 @@ fn run_fob(c: &Case) -> Obs {
     let mut v = verdict_scripted(&script, &out, &rf.bytes, ending).map_err(|(t, d)| (format!("{fmt}-{t}"), d));
     // the staging-buffer case: a consumed failure must be returned by the finishing call itself
     // (c14_small_file_error_at_finish)
-    if v.is_ok() && out.failures > 0 && rf.calls <= 45 {
+    let staged_only = rf.marks.len() >= 2 && rf.marks[rf.marks.len() - 2] == 0;
+    if v.is_ok() && out.failures > 0 && staged_only {
         let real = script.iter().any(|f| matches!(f, Fault::Fail(k) if *k != io::ErrorKind::Interrupted));
         let n_ops = rf.results.len();
         if real && !(out.results.len() == n_ops && out.results[n_ops - 1].is_err()) {
@@ -1988,14 +1999,15 @@ fn run_cram(c: &Case) -> Obs {
         .filter_map(|t| t.parse::<usize>().ok())
         .sum();
     let real = script.iter().any(|f| matches!(f, Fault::Fail(k) if *k != io::ErrorKind::Interrupted));
-    let v = if !real && (out.first_err().is_some() || out.bytes.len() != want_len) {
-        Err(("cram-short-write-corrupts".to_string(), format!("results={} bytes={}", out.fmt_results(), out.bytes.len())))
+    let _ = want_len; // lengths are not reproducible between runs (see checks/C14.json)
+    let v = if !real && out.first_err().is_some() {
+        Err(("cram-short-write-error".to_string(), format!("results={} bytes={}", out.fmt_results(), out.bytes.len())))
     } else if out.failures > 0 && out.first_err().is_none() && real {
         Err(("cram-sink-error-swallowed".to_string(), format!("results={}", out.fmt_results())))
     } else {
         Ok(())
     };
-    let obs = format!("{}|calls={}|len={}", out.fmt_results(), out.calls, out.bytes.len());
+    let obs = format!("{}|calls={}", out.fmt_results(), out.calls);
     Obs::ok(obs, !script.is_empty()).with_verdict(v)
 }
 
